@@ -462,8 +462,17 @@ def r5(R):
     R.check(fast_cols == want, "C01.R5", CF, top[0].lineno, "columnfile.updateGeometry", "fast branch columns %s" % sorted(fast_cols), "fast route writes %s" % sorted(fast_cols ^ want))
     R.check(slow_cols == want, "C01.R5", CF, top[0].lineno, "columnfile.updateGeometry", "slow branch columns %s" % sorted(slow_cols), "slow route writes %s" % sorted(slow_cols ^ want))
     # column order of the fast branch matches compute_geometry's output layout
-    loops = [l for l in ast.walk(ast.Module(body=top[0].body, type_ignores=[])) if isinstance(l, ast.For)]
-    orders = [tuple(t.value for t in ast.walk(l.iter) if isinstance(t, ast.Constant) and isinstance(t.value, str)) for l in loops]
+    # read on the unrolled form: addcolumn(<array>[:, K], '<name>') per array, names ordered by K (a loop over a literal tuple of
+    # names and the statements written out are the same thing)
+    fastmod = pyfacts.unroll_literal_loops(ast.Module(body=pyfacts.clone(top[0].body), type_ignores=[]))
+    bycol = {}
+    for c_ in ast.walk(fastmod):
+        if isinstance(c_, ast.Call) and pyfacts.dotted(c_.func) == "self.addcolumn" and len(c_.args) >= 2 and isinstance(c_.args[1], ast.Constant) \
+                and isinstance(c_.args[0], ast.Subscript) and isinstance(c_.args[0].slice, ast.Tuple) and len(c_.args[0].slice.elts) == 2:
+            k_ = pyfacts.const_int(c_.args[0].slice.elts[1])
+            if k_ is not None:
+                bycol.setdefault(src(c_.args[0].value), {})[k_] = c_.args[1].value
+    orders = [tuple(d_[k_] for k_ in sorted(d_)) for d_ in bycol.values()]
     R.check(("xl", "yl", "zl") in orders and ("tth", "eta", "ds", "gx", "gy", "gz") in orders, "C01.R5", CF, top[0].lineno, "columnfile.updateGeometry",
             "fast branch column order %s" % orders, "out[:, i] columns are attached to the wrong names (compute_geometry writes tth, eta, ds, gx, gy, gz)")
     fu = pyfacts.closure_src(m, list(top[0].body))
